@@ -9,7 +9,7 @@ TRUSTED_BASE = [
     "compression: a parameter (any comp/decomp with decomp c (comp c b) = b) in the theorems; in the differential the real codecs' behaviour is shipped with each case as (plain, compressed) pairs; gzip/snappy/lz4/zstd themselves are oracles",
     "protocol writers' WriteAt back-patching of placeholders is modelled by the final field values; sizeOfUnsignedVarInt's (bits.Len64(x|1)+6)/7 is modelled as the shift-loop count (both checked byte-exactly on every run, not proved equal)",
     "Go stdlib hash/crc32 is modelled by the bitwise reflected CRC of coq/Lib/Crc.v (compared on every case, not verified); time.Time by int64 nanoseconds (the zero time.Time, replaced by time.Now() in Conn, is outside the model)",
-    "coq/Model/Pages.v: protocol/buffer.go's pages, buffers and refs as an atomic-step transition system (each refc update / pool Get/Put one step; sync.Pool may forget pages); the harness translates what the real pageBuffer did (through /repo/protocol/verif_export_c05.go) into these steps and compares refcounts and the bytes read through every ref; real interleavings finer than one step (the window between the atomic decrement to 0 and pagePool.Put) are exercised only by the concurrent stress op",
+    "coq/Model/Pages.v: protocol/buffer.go's pages, buffers and refs as an atomic-step transition system (each refc update / pool Get/Put one step; sync.Pool may forget pages); the harness translates what the real pageBuffer did (through /repo/protocol/verif_export_c05.go) into these steps and compares refcounts and the bytes read through every ref; real interleavings finer than one step (the window between the atomic decrement to 0 and pagePool.Put) are exercised only by the concurrent stress op; pageBuffer.ReadFrom's loop is modelled (pb_read_from) and proved to append exactly the reader's bytes for every fill of the tail page, but there is no hook to drive the real ReadFrom directly: it is tied to the code only through the page-boundary reader cases (format 0/1 decoding appends key, value and inner messages to a partly filled page); pageBuffer.Write's splitting is tied by the pg op",
     "ocaml/kvio.ml.in + ocaml/c05_driver.ml (hex interchange) and harness/kvfmt",
 ]
 ASSUMPTIONS = [
@@ -140,17 +140,31 @@ def setup():
     L.ocaml_build("c05")
 
 
+def run_model_bigstack(exe, cases_text, timeout=3000):
+    """Like L.run_model, with an unlimited stack: the extracted list functions are not tail
+    recursive and the page-boundary suite has byte strings of 200 KB."""
+    rc, out, err, dt = L.sh(["bash", "-c", 'ulimit -s unlimited 2>/dev/null || ulimit -s 1000000; exec "$0"', exe],
+                            input=cases_text, timeout=timeout)
+    if rc != 0:
+        raise L.Fail("correspondence", f"model driver {os.path.basename(exe)} crashed rc={rc}", err[-2000:])
+    res = {}
+    for line in out.splitlines():
+        i, _, r = line.partition(" ")
+        res[i] = r
+    return res
+
+
 def run_cases(ctx, n, big):
     gobin = L.go_build("c05")
     model = L.ocaml_build("c05")
     rc, out, err, dt = L.sh([gobin, "-seed", str(ctx.seed), "-n", str(n), "-big", str(big),
-                             "-pg", str(ctx.scale(40, 150))], timeout=3000)
+                             "-pg", str(ctx.scale(40, 150)), "-bigrd", str(ctx.scale(1, 2))], timeout=3000)
     if rc != 0:
         raise L.Fail("correspondence", "harness cmd/c05 crashed", (out[-1500:] + err[-2500:]))
     cases = L.parse_cases(out)
     for c in cases:
         c["line"] = c["id"] + " " + c["op"] + " " + c["args"]
-    res = L.run_model(model, "\n".join(c["line"] for c in cases) + "\n", timeout=3000)
+    res = run_model_bigstack(model, "\n".join(c["line"] for c in cases) + "\n", timeout=3000)
     return cases, res
 
 
@@ -167,7 +181,7 @@ def correspondence(ctx):
         seen.add(k)
         inp = None
         if layer == "property":
-            inp = dict(case=c["line"][:200000], go=c["go"][:200000], model=model, feats=c["feats"], n=n, big=big)
+            inp = dict(case=c["line"][:4000000], go=c["go"][:4000000], model=model, feats=c["feats"], n=n, big=big)
         failures.append(dict(layer=layer, key=key, what=what, input=inp,
                              detail=json.dumps(dict(case=c["line"][:1500], go=c["go"][:700], model=str(model)[:700], feats=c["feats"]))))
 
@@ -199,6 +213,8 @@ def correspondence(ctx):
                      "decreasing / > 2^31 ms apart times), compared byte-exact with the extracted model and decoded by the harness' independent codec; "
                      "readers rd: reference-encoded sequences of 1..4 items (v0, v1, v1 wrappers per codec, v2 per codec, control, transactional, "
                      "offset gaps, compacted wrappers, corrupted CRCs, min inside the first item) through RecordSet.ReadFrom and messageSetReader, "
+                     "plus in EVERY run the page-boundary suite: keyed v0/v1 messages, v0/v1 wrappers (every codec, many small or few page-spanning inner messages, "
+                     "several wrappers per response with a small one first) and v2 batches (every codec) whose key+value bytes total 65536+{-17,-16,-15,-1,0,1,15,16,17}, 70000, 100000, 200000, "
                      "compared with the model, with each other and with the reference; pg: operation sequences on the real pageBuffer/pageRef (writes across 64 KiB pages, refs, "
                      "buffer unref before ref close, pooled pages reused while older refs are open, double Close) translated to the steps of Model/Pages.v, refcounts and ref contents "
                      "compared after the sequence and ref stability checked after every operation; pgc: concurrent goroutines recycling pages with content checks; a case is non-trivial when it has any feature tag; distinct by hash of op+args",
